@@ -606,12 +606,12 @@ class AbstractExcelInPython(ABC):
             else:
                 range_and_criteria_zip[-1].append(i)
 
+        selected = [bool(count_condition(i)) for i in self._when_cell_is_empty_cast_to_zero(count_range)]
         for [_range, criteria] in range_and_criteria_zip:
             for i in range(len(_range)):
                 if not criteria(_range[i]):
-                    count_range[i] = None
-        count_range = [i if count_condition(i) else None for i in count_range]
-        return len(list(filter(None, count_range)))
+                    selected[i] = False
+        return selected.count(True)
 
     def _sumifs(self, sum_range: List[List], *range_and_criteria):
         # Ячейки в диапазоне, содержащие значение TRUE, оцениваются как 1; ячейки в диапазоне,
